@@ -96,12 +96,13 @@ theorem deploy_returns_after_live_partial {cfg : Cfg} (s s' : St) (p o : Nat) (h
 /-- the deployment failed: registered, no connector, event set -/
 def FailedState (s : St) : Prop := s.config = true ∧ s.depmap = none ∧ ∃ e, s.evmap = some e ∧ s.evs e = true
 
-/-- when the connector's own `deploy()` raises, the deployment enters `FailedState` and every request waiting on
+/-- when the `deploy()` of the connector in `deployments_map` raises, the deployment enters `FailedState` and every request waiting on
     the event is woken -/
 theorem failed_deploy_wakes_waiters_partial {cfg : Cfg} (s s' : St) (p o e : Nat) (hp : s.pc p = .dConn o)
-    (hc : s.config = true) (he : s.evmap = some e) (hs : step cfg s (.connFail p) = some s') :
+    (hc : s.config = true) (he : s.evmap = some e) (hd : s.depmap = some (.eager o))
+    (hs : step cfg s (.connFail p) = some s') :
     FailedState s' ∧ s'.pc p = .failed ∧ ∀ q, s.pc q = .dWait e → s'.pc q = .dWoken := by
-  simp only [step, hp, he] at hs
+  simp only [step, hp, he, hd, Option.isNone_some, Bool.false_eq_true, if_false] at hs
   cases hs
   refine ⟨⟨by simpa using hc, by simp, e, by simpa using he, by simp⟩, by simp, ?_⟩
   intro q hq
@@ -134,6 +135,24 @@ theorem failed_state_absorbing {cfg : Cfg} (s s' : St) (a : Act) (hf : FailedSta
     | (cases hs
        simp [loopHead, afterWait, uBody, useStart, finishDeploy, callUndeploy, undeployEvent, hc, hd, he, hs']
        try (repeat' split) <;> simp_all [finishDeploy])
+
+def kindsC : Nat → Option Kind
+  | 1 => some .deploy | 2 => some .undeploy | 3 => some .deploy | _ => none
+
+/-- **FALSE of the code as it is** (`failed_deploy_wakes_waiters`, no wrappers): `deploy(D)` fails while an `undeploy(D)`
+    waits on the event; the woken undeploy strips the dependants, **clears the event** and only then hits the `KeyError`
+    (`deployments_map[D]` is gone); a later `deploy(D)` finds the deployment registered with its event cleared and
+    waits for ever — every other request is finished, nothing is enabled for it. Three requests, one eager deployment. -/
+theorem failed_deploy_then_undeploy_hangs_false :
+    ∃ s, Reachable codeCfg false kindsC s ∧ s.pc 1 = .failed ∧ s.pc 2 = .failed ∧ s.pc 3 = .dWait 0 ∧ s.evs 0 = false ∧
+      (∀ a, a = .start 3 ∨ a = .wake 3 ∨ a = .connOk 3 ∨ a = .connFail 3 → step codeCfg s a = none) := by
+  refine ⟨_, reachable_runActs Reachable.init [.start 1, .start 2, .connFail 1, .wake 2, .start 3] rfl, ?_, ?_, ?_, ?_, ?_⟩
+  · decide
+  · decide
+  · decide
+  · decide
+  · intro a ha
+    rcases ha with rfl | rfl | rfl | rfl <;> decide
 
 /-! ### lazy deployments: a connector deployed while its `FutureConnector` is being undeployed is leaked — false of the code -/
 
